@@ -6,7 +6,8 @@ PROP = {
         "level_note": "Trusts the linear scan and the level table in harness/mon/src/bin/c17.rs (written from the statement and the documented textual forms). Events whose lvl value matches no documented form are checked for totality and for agreement between views only.",
         "technique": "runtime monitoring: linear-scan reference oracle over seeded registration lists, modules and level values; exhaustive enumeration of the documented level spellings and of named sibling scenarios",
         "assumptions": [
-            "an event that has a lvl value no documented form matches (junk text, numbers) is neither leveled nor unleveled in the statement: outcome not judged",
+            "a lvl value that cannot be read as the filter's level type (empty / unknown word / malformed or numeric text / number / float / bool / null for Level filters; out-of-range number / text / bool / float / null for integer filters) leaves the event without a level: the configured unleveled default applies, else Info (0 for integer filters)",
+            "text that is no documented form but that the lenient parser may still read a level out of (\"info warn\", random text starting with a level letter) is not judged; only agreement between views is checked",
             "metamorphic: a documented level text padded with ASCII whitespace, or carried to the filter in another way (owned String, foreign Display, to_owned / to_shared, serde / sval capture, ThreadLocalCtxt frame), is read exactly like the plain text / typed level; Debug-captured text (quoted) is not generated",
             "equal registered paths: the last registration wins (the shuffled re-registration is de-duplicated first)",
         ],
